@@ -38,6 +38,10 @@ def run(run, ix, tier):
     run.rule('B-R4', floor=9, desc='single rounding of an exact value')
     run.rule('H-C06', floor=9, desc='wiring of names, directions and truncation')
     kernel_obligations(run, ix, KERNELS)
+    # S-R1: zeros, infinities and nan through floor / ceil / nint / frac / mod (sa/checks/special_rules.py)
+    from .special_rules import check_special_values
+    run.rule('S-R1', floor=30, desc='special-value table on every operand-class combination')
+    check_special_values(run, ix, 'S-R1', ['mpf_floor', 'mpf_ceil', 'mpf_nint', 'mpf_frac', 'mpf_mod'])
 
     # direction constants: floor -> round_floor, ceil -> round_ceiling, nint -> round_nearest
     for name, const in (('mpf_floor', 'round_floor'), ('mpf_ceil', 'round_ceiling'),
